@@ -115,6 +115,19 @@ let run_case op kv : string * string =
      | "find" -> let (r, t) = backend_find ns a h be in (fmt_res fmt_opt_nat r, fmt_trace t)
      | "rfind" -> let (r, t) = backend_rfind ns a h be in (fmt_res fmt_opt_nat r, fmt_trace t)
      | _ -> let (r, t) = backend_count ns a h be in (fmt_res (fun n -> string_of_int (int_of_nat n)) r, fmt_trace t))
+  | "iter" ->
+    let ns = bytes kv "ns" and h = bytes kv "h" in
+    let a = nat_of_int (num kv "a") in
+    let be = backend_of (get kv "be") (get kv "cpu") in
+    let ops = List.map (fun c -> match c with
+      | 'N' -> ONext | 'B' -> OBack | 'S' -> OHint | 'C' -> OCount | _ -> failwith "bad iter op")
+      (List.init (String.length (get kv "ops")) (String.get (get kv "ops"))) in
+    let (r, t) = iter_run be ns a h ops (iter_new h) in
+    let fmt_out = function
+      | RItem o -> fmt_opt_nat o
+      | RHint (lo, hi) -> Printf.sprintf "%d-%d" (int_of_nat lo) (int_of_nat hi)
+      | RCount n -> string_of_int (int_of_nat n) in
+    (fmt_res (fun outs -> if outs = [] then "-" else String.concat ";" (List.map fmt_out outs)) r, fmt_trace t)
   | _ -> ("UnknownOp", "-")
 
 let () =
